@@ -948,6 +948,14 @@ def notifyPacket (s : Sock) (p : Array UInt8) (clk : UInt32) : R (Bool × Sock) 
   else if p.size < HEADER_SIZE then pure (false, { s with error := .EINVAL })
   else parse s p clk
 
+/-- `pseudo_tcp_socket_notify_message` with a 24-byte header buffer and a body buffer (the entry point the agent
+    uses for every datagram): the same parse as `notifyPacket`; a datagram shorter than the header or longer than
+    MAX_PACKET is refused WITHOUT recording an error code -/
+def notifyMessage (s : Sock) (p : Array UInt8) (clk : UInt32) : R (Bool × Sock) :=
+  if p.size > MAX_PACKET then pure (false, s)
+  else if p.size < HEADER_SIZE then pure (false, s)
+  else parse s p clk
+
 /-- `pseudo_tcp_socket_connect` -/
 def connect (s : Sock) (clk : UInt32) : R (Bool × Sock) :=
   if s.state ≠ .listen then pure (false, { s with error := .EINVAL })
